@@ -56,10 +56,10 @@ Theorem C08_client_drop_parks_timer : forall s, conn s = true -> started s = tru
 Proof. exact drop_parks_timer. Qed.
 Print Assumptions C08_client_drop_parks_timer.
 
-(** exactly once, and the queue is unblocked: accepted = concluded ++ queued in every schedule (a timed-out
-    request leaves the queue, the next becomes head), written = concluded ++ outstanding in class S0 *)
-Theorem C08_client_timeout_unblocks : forall c t ls, Forall wf_lab ls -> run_ok ls (init c t) = true ->
+(** exactly once, and the queue is unblocked, in EVERY schedule: accepted = concluded ++ queued (a timed-out request leaves the
+    queue, the next becomes head) and written = concluded ++ outstanding (the next one is written only after that) *)
+Theorem C08_client_timeout_unblocks : forall c t ls, Forall wf_lab ls ->
   let s := run ls (init c t) in
   wrs (tr s) = conc (tr s) ++ pendl s /\ exists rest, acc (tr s) = wrs (tr s) ++ rest.
-Proof. exact one_outstanding_fifo_S0. Qed.
+Proof. exact one_outstanding_fifo_S1. Qed.
 Print Assumptions C08_client_timeout_unblocks.
